@@ -40,9 +40,13 @@ type fallbackGenerator struct {
 	counter uint64
 }
 
+// fallbackGenerators numbers the generators of this process: two generators created within
+// the same clock reading must not share a prefix.
+var fallbackGenerators uint64
+
 func NewFallbackGenerator() IGenerator {
 	return &fallbackGenerator{
-		prefix: strconv.FormatInt(time.Now().UnixNano(), 36),
+		prefix: strconv.FormatInt(time.Now().UnixNano(), 36) + "." + strconv.FormatUint(atomic.AddUint64(&fallbackGenerators, 1), 36),
 	}
 }
 
